@@ -156,8 +156,17 @@ let run_assign_case (id : string) (c : Assign.case) (obs : Buffer.t) : bool =
   | Some d, Some s ->
       let need_src = List.mem c.what ([ "assign"; "assign_const"; "assign_elems"; "assign_rv"; "assign_elems_named"; "swap"; "move" ] @ Assign.copy_kinds2) in
       let dn = i (p_er_size d) in
+      let is_marr = List.mem c.what Assign.marr_kinds in
+      let s_moved =
+        if not is_marr then Some s else
+        match c.what, c.args with
+        | "marr_call", _ -> Some s
+        | "marr_taked", [ n ] -> p_run_ops [ OTaked (z n) ] s
+        | "marr_dropped", [ n ] -> p_run_ops [ ODropped (z n) ] s
+        | _ -> None in
       let ok =
-        if need_src then x_sizes_eq (as_view d) (as_view s) && List.length d.play = List.length s.play
+        if is_marr then (match s_moved with Some s' -> x_sizes_eq (as_view d) (as_view s') && List.length d.play = List.length s'.play && List.length d.play >= 1 | None -> false)
+        else if need_src then x_sizes_eq (as_view d) (as_view s) && List.length d.play = List.length s.play
         else if c.what = "vals" then List.length c.args = dn && List.length d.play <= 2
         else true in
       if not ok then (pr (Printf.sprintf "X %s 0 extents differ" id); false)
@@ -170,6 +179,7 @@ let run_assign_case (id : string) (c : Assign.case) (obs : Buffer.t) : bool =
           | "assign" | "assign_const" | "assign_elems" | "assign_rv" | "assign_elems_named" -> p_assign_view padd peq (fun x -> x) d s m0
           | w when List.mem w Assign.copy_kinds2 -> p_assign_view padd peq (fun x -> x) d s m0
           | "move" -> p_move_view padd peq d s m0
+          | w when List.mem w Assign.marr_kinds -> (match s_moved with Some s' -> p_move_view padd peq d s' m0 | None -> m0)
           | "swap" -> p_swap_views padd peq d s m0
           | "fill" -> p_fill_view padd peq (z (List.hd c.args)) d m0
           | "vals" -> p_assign_vals padd peq (zl c.args) d m0
